@@ -52,6 +52,85 @@ def validate(ctx, store, path):
     return nseg, len(evs)
 
 
+def syscall_order(ctx, drv, hf):
+    """diskpacked under strace: write / fsync of the pack files vs. the index updates (marker writes)."""
+    import shutil
+    import subprocess
+    if not shutil.which("strace"):
+        ctx.notes.append("strace not available: diskpacked fsync ordering not checked")
+        return 0
+    n = 0
+    evs = []
+    for mx in ("0", "200"):
+        st, mk = ctx.path("strace_%s.txt" % mx), ctx.path("marker_%s.txt" % mx)
+        p = subprocess.run(["strace", "-f", "-y", "-e", "trace=write,pwrite64,fsync,fdatasync,fallocate,ftruncate", "-s", "100", "-o", st,
+                            drv, "-mode", "dporder", "-marker", mk, "-hist", hf, "-out", ctx.path("x_%s.ndjson" % mx), "-max", mx],
+                           capture_output=True, text=True, timeout=900, env=vlib.goenv())
+        if p.returncode != 0:
+            if "ptrace" in (p.stderr or "") or "Operation not permitted" in (p.stderr or ""):
+                ctx.notes.append("strace cannot attach here: diskpacked fsync ordering not checked")
+                return 0
+            raise vlib.MachineryError("dporder under strace failed: %s" % (p.stderr or p.stdout)[-1500:])
+        lines = open(st).read().splitlines()
+        # completion order: an "<unfinished ...>" line is replaced by its "resumed" line
+        pending = {}
+        for ln in lines:
+            m = re.match(r"(\d+)\s+(.*)", ln)
+            if not m:
+                continue
+            pid, rest = m.group(1), m.group(2)
+            if rest.endswith("<unfinished ...>"):
+                pending[pid] = rest[:-len("<unfinished ...>")]
+                continue
+            mr = re.match(r"<\.\.\. (\w+) resumed>(.*)", rest)
+            if mr and pid in pending:
+                rest = pending.pop(pid) + mr.group(2)
+            mk_m = re.search(r'"VERIFMARK (\w+) ?([^"\\]*)', rest)
+            if mk_m and rest.startswith("write("):
+                what, arg = mk_m.group(1), mk_m.group(2).strip()
+                if what == "History":
+                    evs.append({"call": "reset", "f": "", "res": ""})
+                    n += 1
+                elif what == "Call":
+                    evs.append({"call": "begin", "f": arg, "res": ""})
+                elif what == "Ret":
+                    a = arg.split()
+                    evs.append({"call": "end", "f": a[0], "res": a[1] if len(a) > 1 else ""})
+                elif what == "Set":
+                    evs.append({"call": "idxset", "f": "", "res": ""})
+                elif what == "CommitBatch":
+                    evs.append({"call": "idxbatch", "f": "", "res": ""})
+                elif what == "Delete":
+                    evs.append({"call": "idxdel", "f": "", "res": ""})
+                continue
+            pm = re.match(r"(write|pwrite64|fsync|fdatasync|fallocate)\(\d+<([^>]*pack-\d+\.blobs)>", rest)
+            if pm and not rest.rstrip().endswith("= -1"):
+                call = {"write": "write", "pwrite64": "pwrite", "fsync": "fsync", "fdatasync": "fsync", "fallocate": "punch"}[pm.group(1)]
+                evs.append({"call": call, "f": os.path.basename(pm.group(2)), "res": ""})
+    if not any(e["call"] == "idxset" for e in evs) or not any(e["call"] == "fsync" for e in evs):
+        raise vlib.MachineryError("syscall trace of diskpacked contains no index update / fsync: projection broken")
+    tf = ctx.path("dporder.ndjson")
+    vlib.write_jsonl(tf, evs)
+    r = ctx.tlc_trace("Trace_DiskPackedOrder", "Trace_DiskPackedOrder.cfg", tf)
+    if not r["accepted"]:
+        raise vlib.MachineryError("syscall trace not consumed: %s" % r["out"][-1500:])
+    for line, text in r["viols"]:
+        ctx.discrepancy("C03/diskpacked/syscall-order/%s" % ("unsynced-index" if "un-synced" in text else "no-index-row"),
+                        "syscall trace line %d: %s ; %s" % (line, json.dumps(evs[line - 1]), text[:200]), {"property": "C03", "syscalls": evs[max(0, line - 15):line]})
+    # negative sample: an index update moved before its fsync must be reported
+    bad = [dict(e) for e in evs[:60]]
+    fi = next(i for i, e in enumerate(bad) if e["call"] == "fsync")
+    ii = next(i for i, e in enumerate(bad) if e["call"] == "idxset" and i > fi)
+    bad[fi], bad[ii] = bad[ii], bad[fi]
+    bf = ctx.path("dporder_bad.ndjson")
+    vlib.write_jsonl(bf, bad)
+    if not ctx.tlc_trace("Trace_DiskPackedOrder", "Trace_DiskPackedOrder.cfg", bf)["viols"]:
+        raise vlib.MachineryError("negative sample (index update before fsync) not reported by Trace_DiskPackedOrder")
+    ctx.count("T", syscall_events=len(evs), syscall_histories=n)
+    ctx.sample({"syscall_order": [e["call"] for e in evs[:14]]})
+    return n
+
+
 def run(ctx, replay):
     drv = ctx.build("c03")
     quick = ctx.quick()
@@ -121,6 +200,7 @@ def run(ctx, replay):
         s, e = validate(ctx, "diskpacked", do)
         tot_s += s
         tot_e += e
+    tot_s += syscall_order(ctx, drv, hf)
     ctx.cov["traces_validated_against_impl"] = tot_s
     ctx.cov["evaluations"] = tot_e
     ctx.cov["exhaustive"] = True
@@ -130,4 +210,5 @@ def run(ctx, replay):
                        "re-index / further operations; distinct = (store, crash class, interrupted op, segment kind)")
     ctx.assumptions += ["crash model of the property: executed metadata operations (create, rename, remove) are durable, un-synced data may be lost down to the synced prefix",
                         "diskpacked index (harness KV) is snapshotted at call boundaries; crash consistency of leveldb/kv/sqlite files themselves is not perkeep's code",
-                        "diskpacked crash states are materialised from two consecutive acknowledged states (it writes through os directly, so it cannot be frozen mid-call)"]
+                        "diskpacked crash states are materialised from two consecutive acknowledged states (it writes through os directly, so it cannot be frozen mid-call)",
+                        "the write -> fsync -> index-update order inside diskpacked is observed at system-call level (strace) with marker writes issued by the harness index KV"]
